@@ -29,11 +29,14 @@ def _model(cfg, expect=None, coverage=False):
 
 FAMILIES = ["EC-P256", "EC-P384", "EC-P521", "RSA", "OKP-Ed25519", "OKP-X25519"]
 JWK_CLASSES = ["none:-"] + ["pub:" + f for f in FAMILIES] + ["priv:" + f for f in FAMILIES] + ["sym:oct"]
-REFUSED_TODAY = {"EC-P256", "EC-P384", "EC-P521", "RSA", "OKP-Ed25519"}   # must mirror MCRefusedToday in MCKeyStore.tla
+REFUSED_TODAY = set(FAMILIES) | {"oct"}   # must mirror MCRefusedToday in MCKeyStore.tla (all families since the fix of F24)
+
+
+HELD_FAMILIES = ["EC-P256", "EC-P384", "EC-P521", "RSA", "Ed25519", "X25519"]   # X25519: not supported by the backends' PEM parser
 
 
 def _opkey(s):
-    return (s["a"],) + tuple(str(s.get(k, "")) for k in ("jwk", "nc", "b"))
+    return (s["a"],) + tuple(str(s.get(k, "")) for k in ("jwk", "nc", "b", "fam", "via"))
 
 
 def _features(b):
@@ -93,7 +96,20 @@ def _fixed_scripts():
     for nc in NAME_CLASSES:
         names += [dict(a="LinkName", nc=nc), dict(a="UseName", b="fs", nc=nc), dict(a="UseName", b="vault", nc=nc)]
     names += [dict(a="SignJWT", k="k1"), dict(a="List")]
-    return [dict(id="fixed-all-operations", steps=allops), dict(id="fixed-key-life-cycle", steps=life), dict(id="fixed-name-classes", steps=names)]
+    # every public operation of the key store for every key family a backend can hold (imported PEM, registered through Link
+    # and through Migrate), including the operations that are expected to FAIL for that family; afterwards the life cycle
+    fams = []
+    for i, fam in enumerate(HELD_FAMILIES):
+        steps = []
+        for via in ("link", "migrate"):
+            steps += [dict(a="Import", k="k1", fam=fam, via=via)]
+            steps += [dict(a=a, k="k1") for a in ("Exists", "Resolve", "SignJWT", "SignDPoP", "Decrypt", "JWE")]
+            steps += [dict(a="SignJWS", k="k1", jwk=j) for j in ("none:-", "pub:EC-P256", "priv:OKP-Ed25519")]
+            steps += [dict(a="List"), dict(a="New", k="k2"), dict(a="LinkKey", k="k2", to="k1"), dict(a="SignJWT", k="k2"), dict(a="Decrypt", k="k2"),
+                      dict(a="Delete", k="k1"), dict(a="SignDeleted", k="k1"), dict(a="SignDeleted", k="k2"), dict(a="Exists", k="k1")]
+            steps += [dict(a="New", k="k1"), dict(a="SignJWT", k="k1"), dict(a="Delete", k="k1")]
+        fams.append(dict(id="fixed-key-family-%s" % fam, steps=steps))
+    return [dict(id="fixed-all-operations", steps=allops), dict(id="fixed-key-life-cycle", steps=life), dict(id="fixed-name-classes", steps=names)] + fams
 
 
 def _sig(v):
@@ -128,15 +144,16 @@ def run(prop, tier, seed, replay=None):
     m, d = _model("KeyStore.quick.cfg" if quick else "KeyStore.thorough.cfg", coverage=not quick)
     models.append(d)
     if not quick:
-        for a in ("New", "SignJWT", "SignJWS", "SignDPoP", "SignLD", "SignTx", "Decrypt", "Resolve", "List", "Delete", "SignDeleted", "LinkKey", "LinkName", "UseName"):
+        for a in ("New", "SignJWT", "SignJWS", "SignDPoP", "SignLD", "SignTx", "Decrypt", "Resolve", "List", "Delete", "SignDeleted", "LinkKey", "LinkName", "UseName", "Import", "Exists", "JWE"):
             if not m.coverage.get(a):
                 raise Inconclusive("vacuity: action %s never fired in %s" % (a, d["cfg"]))
-    # descriptive variants of the current tree (1:1 with the open known findings) and vacuity guards for every invariant
+    # vacuity guards: every invariant is violated by the model variant with the corresponding deviation switched on
+    # (the deviations '..' admitted by the name pattern and 'X25519 / oct jwk header not refused' were findings F23 / F24)
     models.append(_model("KeyStore.descriptive.cfg", expect="NamespaceConfined")[1])
-    models.append(_model("KeyStore.descriptive.jwk.cfg", expect="NoCallerSecretEchoed")[1])
     models.append(_model("KeyStore.deviant.cfg", expect="NoSecretInAnyChannel")[1])
     models.append(_model("KeyStore.cache.cfg", expect="SignatureBoundToKid")[1])
     models.append(_model("KeyStore.jwkfam.cfg", expect="NoCallerSecretEchoed")[1])
+    models.append(_model("KeyStore.errtext.cfg", expect="NoSecretInAnyChannel")[1])
     # 2. behaviours from the permissive model
     g, gd = _model("KeyStore.gen.cfg" if quick else "KeyStore.gen.thorough.cfg")
     gd["behaviours"] = len(g.printed)
@@ -191,7 +208,7 @@ def run(prop, tier, seed, replay=None):
                          % (sorted(refused_real), sorted(REFUSED_TODAY)))
     for dn, n in sorted(drift.items())[:6]:
         rep.notes.append("DRIFT: %s (x%d)" % (dn, n))
-    need = {"httpResponse", "jwsHeader", "token", "didDocument", "sqlRow", "auditLog", "log", "fileName"}
+    need = {"httpResponse", "jwsHeader", "token", "didDocument", "sqlRow", "auditLog", "log", "fileName", "errorText"}
     if need - set(c for c, n in channels.items() if n > 0):
         raise Inconclusive("channels not captured: %s" % sorted(need - set(channels)))
     if sigs == 0 or audit == 0:
@@ -210,8 +227,11 @@ def run(prop, tier, seed, replay=None):
                distinct_operation_classes=len(opkeys), operation_outcomes=outcomes, name_classes=len(NAME_CLASSES),
                jwk_header_classes=len(JWK_CLASSES), secret_jwk_families_refused_by_the_code=sorted(refused_real),
                sequence_features_covered=nfeatures,
-               canary_forms=["raw", "hex", "HEX", "base64", "base64 raw", "base64url", "base64url raw", "base64 at 3 alignments",
-                             "decimal", "PEM body lines", "DER hex", "DER raw"],
+               key_families_held=HELD_FAMILIES,
+               canary_forms=["raw", "hex", "HEX", "hex spaced", "base64", "base64 raw", "base64url", "base64url raw", "base64 at 3 alignments",
+                             "decimal byte list (%v of []byte)", "Go-syntax byte list (%#v)", "decimal big int (%v/%d)", "hex big int (%x)",
+                             "PEM body lines", "DER hex", "DER raw"],
+               secret_parts="EC: d; RSA: D, primes, Dp, Dq, Qinv; Ed25519: seed and 64-byte key; X25519: scalar",
                models=models, states=sum(x["states"] for x in models), transitions=sum(x["transitions"] for x in models),
                drift_notes=drift, inconclusive_scripts=ninc, exhaustive=False)
     vlib.write_evidence(prop, tier, seed, "exploration", cov, time.time() - t0, len(rep.violations),
@@ -219,12 +239,13 @@ def run(prop, tier, seed, replay=None):
                          "bytes) cannot be decided by a TLA+ model of executions; only the operations the model enumerates are exercised",
                          "a leak is detected only in the scanned encodings of the private scalar d / of the stored PEM (raw, hex, base64 and "
                          "base64url incl. unaligned, decimal, PEM body, DER); an encrypted, compressed or otherwise transformed copy is not seen",
-                         "channels: HTTP responses (bodies + headers) of the crypto, vdr, vcr, auth, network, status and public metadata endpoints "
+                         "channels: texts of the errors (and panics) every in-process key store call returns; HTTP responses (bodies + headers) of the crypto, vdr, vcr, auth, network, status and public metadata endpoints "
                          "that the operations call; logrus output at trace level incl. audit records; every row of every sqlite table; headers "
                          "and claims of every signed artefact; file names below the data directory",
                          "only the fs key store (and a fake Vault HTTP endpoint for path confinement) is executed; Azure Key Vault and the external "
                          "store are not",
-                         "only EC P-256 keys (what the node generates); ES256 verification by jwx is trusted",
+                         "keys of other families than EC P-256 get into the store as imported PEM files (pre-populated fs backend) registered "
+                         "through Link / Migrate; signature verification by jwx is trusted",
                          "LD-proof signatures are checked through proof.verificationMethod and the node's own verifier, not by an independent "
                          "canonicaliser"])
     return rep.finish()
